@@ -1204,6 +1204,40 @@ func c20Spaces(c *fw.Ctx) {
 			}
 		})
 
+	// records in forms only the Go structs can hold (16-octet IPv4 addresses, lists in any order, mixed case …):
+	// whatever the form, a record is a duplicate of itself, of its copy and of a twin built the same way, and Dedup
+	// keeps one of them
+	ncList := c16NonCanonical()
+	c.Space("go-forms", fmt.Sprintf("%d records in forms only the Go structs can hold (C16's noncanonical list: SVCB/HTTPS parameters and mandatory keys in every order with a 16-octet IPv4 hint, NSEC/NSEC3/CSYNC bitmaps in every order, 16-octet IPv4 addresses, unmasked prefixes, mixed-case names; OPT forms skipped): IsDuplicate(r, r), IsDuplicate(r, Copy(r)) and IsDuplicate(r, twin) hold in both directions, the copy prints like the original, Dedup([r, Copy(r), twin]) keeps exactly r; non-trivial: all", len(ncList)), true,
+		func(emit func(func(*fw.R))) {
+			for _, nc := range ncList {
+				nc := nc
+				emit(func(r *fw.R) {
+					rr := nc.mk()
+					if rr.Header().Rrtype == dns.TypeOPT {
+						return
+					}
+					r.Nontrivial()
+					tn := strings.Fields(nc.what)[0]
+					cp, twin := dns.Copy(rr), nc.mk()
+					if cp.String() != rr.String() {
+						r.Fail("go-forms/copy-prints-differently/"+tn, "{%s}: the copy prints %q, the record %q", nc.what, cp.String(), rr.String())
+					}
+					for _, p := range []struct {
+						n    string
+						a, b dns.RR
+					}{{"itself", rr, rr}, {"its copy", rr, cp}, {"copy vs record", cp, rr}, {"a twin", rr, twin}, {"twin vs copy", twin, cp}} {
+						if !dns.IsDuplicate(p.a, p.b) {
+							r.Fail("go-forms/not-duplicate/"+tn, "{%s}: IsDuplicate(record, %s) is false", nc.what, p.n)
+						}
+					}
+					if out := dns.Dedup([]dns.RR{rr, cp, twin}, nil); len(out) != 1 || out[0] != rr {
+						r.Fail("go-forms/dedup/"+tn, "{%s}: Dedup([r, Copy(r), twin]) keeps %d records", nc.what, len(out))
+					}
+				})
+			}
+		})
+
 	// Dedup groups by text, not by IsDuplicate: records of a registered private type (whose isDuplicate is constant
 	// false, like OPT's) with the same text are one group all the same.
 	c.Space("dedup-private", "all lists of length ≤ 4 over the pool {private-type record P with TTL 5, P with TTL 2, the same type with another payload (TTL 7), an MX record (TTL 3)} (records of a type registered through PrivateHandle never compare as duplicates, Dedup goes by their text): one representative per group in input order, the first record of the group, carrying the group's smallest TTL; non-trivial: the list holds P twice", true,
